@@ -192,6 +192,11 @@ func (it *Interp) tupleOf(t *SymType, which string) *SymTuple {
 	if *slot == nil {
 		n := it.choose(it.MaxArity+1, "len("+which+"("+t.R().Desc+"))")
 		tup := &SymTuple{Desc: which + "(" + t.R().Desc + ")"}
+		// a function type may carry parameter names or not (go/types prints names only when present)
+		named := true
+		if which == "Params" && n > 0 && it.NameVariants {
+			named = it.choose(2, "names("+t.R().Desc+")", "present", "absent") == 0
+		}
 		for i := 0; i < n; i++ {
 			vt := it.newType(fmt.Sprintf("%s%d(%s)", which, i, t.R().Desc))
 			kind := "paramname"
@@ -199,7 +204,11 @@ func (it *Interp) tupleOf(t *SymType, which string) *SymTuple {
 				kind = "resultname"
 			}
 			h := it.newHole(&Hole{Kind: kind, Class: "Ident", Desc: fmt.Sprintf("%s%d", strings.ToLower(which[:1]), i), Owner: t.R(), Index: i})
-			tup.Vars = append(tup.Vars, &SymVar{NameT: HoleT(h), Type: vt, Desc: fmt.Sprintf("%s%d(%s)", which, i, t.R().Desc)})
+			nm := HoleT(h)
+			if !named || which == "Results" {
+				nm = Lit("") // results of the signatures in play are unnamed
+			}
+			tup.Vars = append(tup.Vars, &SymVar{NameT: nm, Type: vt, Desc: fmt.Sprintf("%s%d(%s)", which, i, t.R().Desc)})
 		}
 		*slot = tup
 	}
@@ -419,6 +428,10 @@ func (it *Interp) typesMapMethod(tm *TypesMapObj, name string, pos token.Pos) Va
 			it.run.gens = append(it.run.gens, it.typeArgs(a))
 			return nil, nil
 		case "TypeString", "TypeStringBypass":
+			if tup, ok := a[0].(*SymTuple); ok {
+				// go/types prints a tuple as "(name type, ...)"
+				return []Value{HoleT(it.newHole(&Hole{Kind: "tuplestr", Class: "Paren", Desc: name + "(" + tup.Desc + ")", Args: []Value{tup}}))}, nil
+			}
 			t, ok := a[0].(*SymType)
 			if !ok {
 				return nil, fmt.Errorf("TypeString of %T", a[0])
@@ -913,7 +926,18 @@ func init() {
 			}
 			t, ok := a[3].(*SymType)
 			if !ok {
-				return nil, fmt.Errorf("NewVar with type %T", a[3])
+				// a types.Type implemented by the plugin itself (toerror's basicErrorType): its String() is its text
+				sv, isStruct := a[3].(*StructVal)
+				if !isStruct {
+					return nil, fmt.Errorf("NewVar with type %T", a[3])
+				}
+				txt := it.callMethodByName(sv, "String")
+				tt, isT := txt.(*Tmpl)
+				if !isT || !tt.IsConcrete() {
+					return nil, fmt.Errorf("NewVar with a custom type whose String() is not a literal")
+				}
+				t = it.newType(tt.Concrete())
+				it.fact(t).TypeText = tt.Concrete()
 			}
 			return []Value{&SymVar{NameT: nm, Type: t, Desc: "newvar(" + nm.String() + ")", Concrete: nm.IsConcrete()}}, nil
 		},
@@ -1030,4 +1054,26 @@ func (it *Interp) identical(x, y *SymType) bool {
 		a, b = b, a
 	}
 	return it.pred("Identical(" + a + "," + b + ")")
+}
+
+// callMethodByName calls a repository-declared method of a struct value.
+func (it *Interp) callMethodByName(sv *StructVal, name string) Value {
+	obj, _, _ := types.LookupFieldOrMethod(sv.Type, true, nil, name)
+	m, ok := obj.(*types.Func)
+	if !ok {
+		// unexported lookups need the package
+		if n, isNamed := sv.Type.(*types.Named); isNamed {
+			obj, _, _ = types.LookupFieldOrMethod(sv.Type, true, n.Obj().Pkg(), name)
+			m, ok = obj.(*types.Func)
+		}
+	}
+	if !ok {
+		it.unsupported(0, "value of type %s has no method %s", sv.Type, name)
+	}
+	fv, _ := it.funcValue(m, sv, 0).(*FuncVal)
+	vs := it.callFunc(fv, nil, 0)
+	if len(vs) != 1 {
+		it.unsupported(0, "method %s returned %d values", name, len(vs))
+	}
+	return vs[0]
 }
